@@ -27,7 +27,7 @@ NOTES = {
  'C14-11': 'the stand-alone filter parser jp.NewFilter (same change as C12-12): not caught by C14; caught by C12 (newfilter build of the logic leg)',
  'C15-11': 'the same change as C04-10 proposed independently: caught by C07',
  'C16-10': 'the same change as C04-10 proposed independently: caught by C07',
- 'C17-12': 'a reader defect of oj.Tokenizer (an empty read taken for the end of the stream; same change as C09-11): not caught by C17 (its readers never return 0, nil); caught by C03 and C09',
+ 'C17-12': 'strengthened: missed by C17 at first (its readers never returned 0, nil; C03 and C09 caught it, same change as C09-11); MatchLoad is now also run with an empty read first / in the middle / before io.EOF and with io.EOF delivered together with the data',
  'C01-2': 'strengthened: missed at first (the stale look-ahead index only shows with a newline + blank before a quote at the end of a buffer); C01 gained the whitespace-placement family (every witness x one whitespace insertion x {as is, completed} x {[]byte, one chunk, every 2-split})',
  'C03-3': 'strengthened: the thorough tier (chunks of length 3) caught it, quick did not; quick gained the look-ahead chunk family (opener + every class representative + follower)',
  'C04-1': 'strengthened: missed at first (0x0b was not in the string alphabet; the escape table is private so classes cannot be recomputed); two leaves holding every byte 0x01-0x1f and 0x20-0x7f added',
